@@ -30,9 +30,16 @@ def run_idc(g: GSpec, X, Y, Z):
     from y0.algorithm.identify import identify_outcomes
     from y0.dsl import Variable
 
-    return identify_outcomes(
+    res = identify_outcomes(
         g.to_nx(), {Variable(x) for x in X}, {Variable(y) for y in Y}, conditions={Variable(z) for z in Z}
     )
+    if len(Z) == 1 and len(Y) == 1 and X:
+        # the documented single-Variable form of the arguments must give the same answer
+        one = lambda S: Variable(next(iter(S))) if len(S) == 1 else {Variable(s) for s in S}
+        alt = identify_outcomes(g.to_nx(), one(X), one(Y), conditions=one(Z))
+        if alt != res:
+            raise AssertionError(f"identify_outcomes gives {alt} when singletons are passed as bare Variables but {res} when passed as sets")
+    return res
 
 
 def truth(model_or_world, X, Y, Z, env, exact_mode=False):
